@@ -20,7 +20,7 @@ BASIC = Profile(new=10, edit_refresh=10, push=10, pop=10, goto=6, float=6, sink=
                 rename=3, commit=3, uncommit=2, clean=2, undo=5, redo=3, reset=2, inspect=2, repair=1,
                 gcommit=1, greset=1, gamend=1, spill=1, logclear=0.3, invalid=4)
 REORDER = Profile(new=6, edit_refresh=8, push=14, pop=12, goto=8, float=10, sink=10, delete=5, hide=4, unhide=4,
-                  commit=4, rename=1, undo=2, invalid=2)
+                  commit=4, rename=1, undo=2, invalid=2, upstream=3)
 UNDO = Profile(new=6, edit_refresh=6, push=8, pop=8, float=3, sink=3, delete=3, hide=2, unhide=2, rename=2,
                undo=14, redo=10, reset=6, gcommit=1.5, commit=1, invalid=1)
 REPAIR = Profile(new=8, edit_refresh=8, push=5, pop=6, delete=2, hide=2, repair=10, gcommit=8, gamend=4, greset=9,
@@ -150,6 +150,35 @@ class Chooser:
             return self.edit_cmd(view)
         if kind == "dirty_edit":
             return self.edit_cmd(view)
+        if kind == "upstream":
+            # make some unapplied patches "already merged upstream": pop everything, commit the
+            # same change (plus sometimes an unrelated one) with plain git, then push --merged
+            cands = [n for n in (A + U) if view["deltas"].get(n)]
+            if not cands:
+                return {"c": "new", "name": self.fresh_name(view), "meta": self.next_meta()}
+            chosen = self.pick_some(cands, 2)
+            seq = []
+            if A:
+                seq.append({"c": "pop", "flags": ["all"]})
+            for n in chosen:
+                for cell, v in view["deltas"][n]:
+                    seq.append({"c": "gedit", "cell": cell, "v": v})
+            if rng.random() < 0.6:
+                seq.append(self.edit_cmd(view))
+            m = self.next_meta()
+            seq.append({"c": "gcommit", "meta": m, "subj": "x%d upstream" % m})
+            k = rng.random()
+            allp = [n for n in (A + U)]
+            if k < 0.4:
+                seq.append({"c": "push", "flags": ["merged", "all"]})
+            elif k < 0.8:
+                others = [n for n in allp if n not in chosen]
+                rng.shuffle(others)
+                seq.append({"c": "push", "flags": ["merged"], "ranges": chosen + others[:2]})
+            else:
+                seq.append({"c": "goto", "loc": rng.choice(allp), "flags": ["merged"]})
+            self.pending = seq[1:]
+            return seq[0]
         if kind == "__unused__":
             ncells = len(view["wt"])
             nm = hist.NFILES_MULTI * hist.REGIONS
